@@ -56,9 +56,10 @@ type Env struct {
 	Evs []string
 }
 
-var exprValues = map[int]string{1: ` + "`V1<&>`" + `, 2: ` + "`V2\"'=`" + `}
+var exprValues = map[int]string{1: ` + "`V1<&>`" + `, 2: ` + "`V2\"'=`" + `, 3: ` + "`V3;&#39;`" + `}
 
 func (e *Env) E(i int) string          { e.Evs = append(e.Evs, fmt.Sprintf("E%d", i)); return exprValues[i] }
+func (e *Env) EE(i int) (string, error) { e.Evs = append(e.Evs, fmt.Sprintf("E%d", i)); return exprValues[i], nil }
 func (e *Env) C(i int) bool            { k := fmt.Sprintf("C%d", i); e.Evs = append(e.Evs, k); return e.Cv[k] }
 func (e *Env) L(i int) []struct{}      { k := fmt.Sprintf("L%d", i); e.Evs = append(e.Evs, k); return make([]struct{}, e.Lv[k]) }
 func (e *Env) S() string               { e.Evs = append(e.Evs, "S"); return e.Sv }
